@@ -35,6 +35,10 @@ def main():
     first = os.path.join(build, "C10_c10.cases")
     second = os.path.join(build, "C10_c10.second")
     binp = os.path.join(build, "bin", "c10")
+    if os.path.exists(first) and "#GEN\t" not in open(first, errors="replace").read():
+        # check.py --replay wrote the recorded case lines only: nothing to compare or to race
+        print("SAMPLE\treplay mode: runtime exploration skipped")
+        sys.exit(0)
     if os.path.exists(binp) and os.path.exists(first):
         t0 = time.time()
         p = subprocess.run([binp, "-seed", a.seed, "-n", str(n), "-tier", a.tier, "-out", second] + h.get("args", []),
